@@ -277,7 +277,7 @@ pub fn run(ctx: &Ctx) -> Report {
         // an unbroken contact of 2^32 + 5 samples on the smallest buffer (a narrow sample counter would overflow)
         let t0 = std::time::Instant::now();
         let mut r = Report::new();
-        let cfg = ribbon::Cfg { rate: 100, softpot: 20e3, dropper: 820.0, pullup: 1e6 };
+        let cfg = ribbon::Cfg { rate: 100, softpot: 20e3, dropper: 820.0, pullup: 1e6, frac: 0.0 };
         let bb = cfg.boundary() as f32;
         let h = ribbon::History { cfg, strict: false, ops: vec![ribbon::Op::Poll(0.6 * bb, (1u64 << 32) + 5), ribbon::Op::Poll(1.0, 2), ribbon::Op::Poll(0.2 * bb, 20)] };
         ribbon::run_and_record(&h, want, &mut r, false);
